@@ -18,6 +18,11 @@ def run(rep, tier):
     R.rule_escape_function(rep)
     rep.rule("RT-doc", "parseTextgridStr (with both text parsers, the row fetchers and strToIntOrFloat inlined) interpreted on the text the two emitters write for generic textgrids -- numerals and labels are opaque atoms; labels carry adversarial skeletons (doubled quote + line break, quote-only label, quote before blanks and a line break, trailing quote) -- returns the dictionary that was written")
     R.rule_round_trip(rep, tier)
+    # what reaches the emitters: saving may only add blanks and absorb slivers below the threshold (shared with C04)
+    from .c04 import prep_table
+    rep.rule("T10-T12-prep", "the save preparation interpreted on a generic textgrid (shared with C04): entries verbatim without blank filling; with it, only blanks added and slivers strictly below the threshold absorbed -- decided by exact comparison, no tolerance")
+    for k_ in (0, 1):
+        prep_table(rep, "T10-T12-prep", k_, True, "none")
     R.rule_numeric_regex(rep, tier)
     R.rule_numeric_conversion(rep, tier)
     R.rule_exact_formatter(rep)
